@@ -1,7 +1,7 @@
 set -e
 cd /repo
-declare -A C=( [D1]=96779e3 [D2]=d3b6f96 [D3]=6965bfd [D4]=f569e31 [D5]=2f41f1a [D6]=5ef0dc7 [D7]=c1bb630 )
-for d in D1 D2 D3 D4 D5 D6 D7; do
+declare -A C=( [D1]=96779e3 [D2]=d3b6f96 [D3]=6965bfd [D4]=f569e31 [D5]=2f41f1a [D6]=5ef0dc7 [D7]=c1bb630 [D8]=4f082cb )
+for d in D1 D2 D3 D4 D5 D6 D7 D8; do
   wt=/tmp/rv_$d
   git worktree remove --force $wt 2>/dev/null || true
   git worktree add -q $wt HEAD
